@@ -2,10 +2,10 @@
 
    (enc <doc> <ver> (rnd xB ...) (ivs xB ...))
        encrypt <doc> with explicit randomness; answer (encdoc <doc'>) | (err C) | (panic)
-   (case <doc> <ver> <encdoc> (pws xPW ...))
+   (case <doc> <ver> <encdoc> (pws xPW ...) (flags [noreenc] ...))
        <encdoc> is <doc> encrypted under <ver> by the implementation or by the model.
        answer (res (reenc b) (dec r ...)) where
-         b = 1 iff encrypting <doc> in the model, with the random choices read back from <encdoc>
+         b = "skipped" with the flag noreenc, else 1 iff encrypting <doc> in the model, with the random choices read back from <encdoc>
              (U padding / salts / Perms filler / per-object IVs), reproduces <encdoc> exactly;
          r = outcome of decrypt(pw) on <encdoc> for each password:
              (ok <doc''> xFILEKEY) | (err C) | (panic) | (unmodelled)
@@ -148,9 +148,13 @@ Definition run_dec (encd : doc) (pw : bytes) : sx :=
   | DUnmodelled => SL [sx_id "unmodelled"]
   end.
 
+Definition has_flag (x : sx) (f : String.string) : bool :=
+  match x with SL l => existsb (fun y => is_id y f) l | _ => false end.
+Arguments has_flag _ _%string_scope.
+
 Definition run (x : sx) : sx :=
   match x with
-  | SL (t :: dx :: vx :: rx :: ix :: _) =>
+  | SL (t :: dx :: vx :: rx :: ix :: rest) =>
     if is_id t "enc" then
       match doc_of_sx dx, ver_of_sx vx, bytes_list_of_sx rx, bytes_list_of_sx ix with
       | Some d, Some v, Some rnd, Some ivs => run_enc d v rnd ivs
@@ -159,7 +163,9 @@ Definition run (x : sx) : sx :=
     else if is_id t "case" then
       match doc_of_sx dx, ver_of_sx vx, doc_of_sx rx, bytes_list_of_sx ix with
       | Some d, Some v, Some encd, Some pws =>
-        SL [sx_id "res"; SL [sx_id "reenc"; sx_bool (reenc_ok d v encd)];
+        let noreenc := match rest with f :: _ => has_flag f "noreenc" | [] => false end in
+        SL [sx_id "res";
+            SL [sx_id "reenc"; if noreenc then sx_id "skipped" else sx_bool (reenc_ok d v encd)];
             SL (sx_id "dec" :: map (run_dec encd) pws)]
       | _, _, _, _ => sx_id "badcase"
       end
